@@ -301,61 +301,3 @@ Proof.
   apply in_map_iff. exists w. split; [reflexivity|apply in_seq; lia].
 Qed.
 
-(* the bounded-exhaustive sweep: all 0..4 x 0..4 sizes, all masks, both modes *)
-Lemma check_all_le_4 : check_all_le 4 = true.
-Proof. vm_compute. reflexivity. Qed.
-
-Lemma check_mask_le_4x4 m w :
-  (length m <= 4)%nat -> (w <= 4)%nat -> (forall r, In r m -> length r = w) -> check_mask m = true.
-Proof.
-  intros Hh Hw Hr. pose proof check_all_le_4 as H. unfold check_all_le in H.
-  rewrite forallb_forall in H. specialize (H (length m, w) (in_sizes_le 4 _ _ Hh Hw)).
-  cbn [fst snd] in H. unfold check_size in H. rewrite forallb_forall in H.
-  apply H. apply all_masks_complete; [reflexivity|exact Hr].
-Qed.
-
-Lemma rectangular_of m w : (forall r, In r m -> length r = w) -> rectangular m.
-Proof.
-  intros H r Hr. unfold mask_w. destruct m as [|r0 m]; [destruct Hr|].
-  rewrite (H r Hr), (H r0 (or_introl eq_refl)). reflexivity.
-Qed.
-
-Definition contours_valid (m : mask) (cs : list (list point)) : Prop :=
-  (forall C p, In C cs -> In p C -> border_px m p) /\
-  (forall p, fg m p -> exists C, In C cs /\ outer_contour m p C).
-
-Lemma contours_ok_le_4x4 m w md :
-  (length m <= 4)%nat -> (w <= 4)%nat -> (forall r, In r m -> length r = w) ->
-  exists cs, find_contours m md = Ok cs /\ contours_valid m cs.
-Proof.
-  intros Hh Hw Hr. pose proof (check_mask_le_4x4 m w Hh Hw Hr) as Hc.
-  pose proof (rectangular_of m w Hr) as Hrect.
-  unfold check_mask in Hc.
-  destruct (find_contours m ListMode) as [cl| |] eqn:El; try discriminate.
-  destruct (find_contours m External) as [ce| |] eqn:Ee; try discriminate.
-  apply andb_true_iff in Hc. destruct Hc as [Hl He].
-  assert (Hgen : forall cs, valid_b m (components m) (fun _ => true) cs = true -> contours_valid m cs).
-  { intros cs Hv. destruct (valid_b_sound m _ cs Hrect Hv) as [H1 H2]. split; [exact H1|].
-    intros p Hp. destruct (components_cover m p Hrect Hp) as (K & HK & HpK).
-    apply (H2 p K Hp HK HpK eq_refl). }
-  destruct md.
-  - exists ce. split; [exact Ee|apply Hgen; exact He].
-  - exists cl. split; [exact El|apply Hgen; exact Hl].
-Qed.
-
-(* soundness of the oracle used on the implementation's output, for masks of any size *)
-Lemma contours_checker_sound m cs :
-  rectangular m -> contours_ok_b m ListMode cs = true -> contours_valid m cs.
-Proof.
-  intros Hrect Hv. unfold contours_ok_b in Hv.
-  destruct (valid_b_sound m _ cs Hrect Hv) as [H1 H2]. split; [exact H1|].
-  intros p Hp. destruct (components_cover m p Hrect Hp) as (K & HK & HpK).
-  apply (H2 p K Hp HK HpK eq_refl).
-Qed.
-
-Lemma contours_checker_sound_external m cs :
-  rectangular m -> contours_ok_b m External cs = true ->
-  (forall C p, In C cs -> In p C -> border_px m p) /\
-  (forall p K, fg m p -> In K (components m) -> In p K -> outermost_b (exterior m) K = true ->
-     exists C, In C cs /\ outer_contour m p C).
-Proof. intros Hrect Hv. unfold contours_ok_b in Hv. apply (valid_b_sound m _ cs Hrect Hv). Qed.
